@@ -12,6 +12,10 @@ REPO = os.environ.get("FV_REPO", "/repo")
 muts = json.load(open(os.path.join(VERIF, "selftest", "mutants.json")))
 sel = sys.argv[1:]
 results = []
+shard = os.environ.get("FV_SHARD")        # "i/n": developer runs split over scratch worktrees
+if shard:
+    si, sn = (int(x) for x in shard.split("/"))
+    muts = [m for k, m in enumerate(muts) if k % sn == si]
 for m in muts:
     if sel and not any(s in m["id"] for s in sel):
         continue
@@ -35,7 +39,7 @@ for m in muts:
     for pid, (rc, lines) in outs.items():
         want = 1 if m.get("kind", "break") == "break" else 0
         ok = rc == want
-        print("%s %s %s rc=%d %s" % ("OK  " if ok else "FAIL", m["id"], pid, rc, "; ".join(lines[:4])))
+        print("%s %s %s rc=%d %s" % ("OK  " if ok else "FAIL", m["id"], pid, rc, "; ".join(lines[:4])), flush=True)
         results.append((m["id"] + ":" + pid, "ok" if ok else "FAIL"))
 bad = [r for r in results if r[1] == "FAIL"]
 print("selftest: %d run, %d failed, %d skipped" % (len(results), len(bad), len([r for r in results if r[1] == "skip"])))
